@@ -283,6 +283,11 @@ pub(super) mod pktline {
             let length = usize::from_str_radix(length, 16)
                 .map_err(|e| io::Error::new(io::ErrorKind::InvalidInput, e.to_string()))?;
 
+            // Nb. The length includes the header. It comes from the remote: make sure
+            // that the packet-line fits in the buffer, instead of panicking.
+            if length < HEADER_LEN || length > buf.len() {
+                return Err(io::ErrorKind::InvalidInput.into());
+            }
             self.read_exact(&mut buf[HEADER_LEN..length])?;
 
             Ok(length)
